@@ -40,6 +40,14 @@ func (s *Swarm) VerifPeerOnline(name mesh.PeerName) *Peer { return s.findPeer(na
 // VerifPeerOffline is onPeerOffline (the router's GC callback).
 func (s *Swarm) VerifPeerOffline(name mesh.PeerName) { s.onPeerOffline(name) }
 
+// VerifPeer returns the peer from the member list without creating it (nil if absent).
+func (s *Swarm) VerifPeer(name mesh.PeerName) *Peer {
+	if p, ok := s.members.list.Load(name); ok {
+		return p.(*Peer)
+	}
+	return nil
+}
+
 // VerifHasPeer tells whether the peer is in the member list.
 func (s *Swarm) VerifHasPeer(name mesh.PeerName) bool { return s.members.Contains(name) }
 
